@@ -37,6 +37,7 @@ type Loop struct {
 	seen    map[string]int // violation signature -> count
 	MaxRepl int
 	StepNow int64
+	Stop    bool // set by an engine when the process is no longer usable (leaked blocked goroutines)
 }
 
 func NewLoop(o WorkerOpts) *Loop {
@@ -56,6 +57,9 @@ func (l *Loop) Run(step func(i int64, caseSeed uint64)) {
 				break
 			}
 		} else if time.Since(l.start).Seconds() >= l.Opts.BudgetS {
+			break
+		}
+		if l.Stop {
 			break
 		}
 		step(i, Derive(l.Rep.WorkerSeed, "case", uint64(i)))
